@@ -9,6 +9,8 @@ mod c18;
 mod c12;
 mod c10;
 mod c05;
+mod c13;
+mod c04;
 
 fn main() {
     // silence the default panic message: panics are observations here
@@ -24,6 +26,8 @@ fn main() {
         "c12" => c12::run(rest),
         "c10" | "c11" => c10::run(rest),
         "c05" | "c14" => c05::run(rest),
+        "c13" => c13::run(rest),
+        "c04" => c04::run(rest),
         other => {
             eprintln!("unknown subcommand {other}");
             std::process::exit(2);
